@@ -85,7 +85,8 @@ class StandardLengthType(DiagCodedType):
             bit_sz = bin(self.bit_mask).count("1")
             used_mask = (1 << bit_sz) - 1
 
-            return used_mask.to_bytes((bit_sz + 7) // 8, endianness)
+            # the mask must cover all bytes of the encoded object
+            return used_mask.to_bytes((self.bit_length + 7) // 8, endianness)
 
         sz: int
         if isinstance(internal_value, BytesTypes):
